@@ -202,10 +202,26 @@ Definition thread_order_ok (evs : list val) : bool :=
     let entered_t := map a1 (filter (fun x => Nat.eqb (a4 x) t) enters) in
     listeqb (filter (fun p => mem p E) entered_t) (filter (fun p => Nat.eqb (thread_of p) t) E)) enters.
 
+(* "every message accepted by Publish is handed ... to each subscriber that was registered before it and is still
+   registered ...": the deliveries of a message the loop took are the clause above (due at loop.errs).  A Publish
+   call that returned anything but a refusal (ErrProviderClosed, ErrNoTopic) WITHOUT the loop having taken the
+   message handed it to nobody: then no matching subscriber may have been registered during the whole call - from
+   before the harness made it (event 42) until it returned (event 15) *)
+Definition accepted_ok (evs : list val) : bool :=
+  forallb (fun e =>
+    if Nat.eqb (code e) 15 && negb (Nat.eqb (a2 e) 1) && negb (Nat.eqb (a2 e) 90) && negb (has_ev 27 (a1 e) evs)
+    then let p := a1 e in
+         let pre := before (is_ev 42 p) evs in
+         let mid := before (is_ev 15 p) (after (is_ev 42 p) evs) in
+         let tp := topics_of 42 p evs in
+         negb (existsb (fun j => intersects (topics_of 1 j evs) tp && negb (has_ev 29 j mid)) (live_at_end [] pre))
+    else true) evs.
+
 Definition c03_core (i : val) : bool :=
   let evs := events_of i in
   let complete := Nat.eqb (status_of i) 0 in
   deliveries_ok complete evs
+  && accepted_ok evs
   && c_ok (c3_run evs)
   (* one global order: the fan-out order is the order of the Put calls (the linearisation witness) *)
   && prefixb (puts_order evs) (errs_order evs) && nodupb (errs_order evs)
@@ -298,11 +314,23 @@ Definition replay_ok (i : val) (e41 : val) : bool :=
   let during := before (is_ev 32 j) (after (is_ev 41 j) evs) in
   let actual := map a2 (filter (fun e => is_ev 38 j e) during) in
   let finished_ok := match find (is_ev 32 j) evs with Some e => Nat.eqb (a2 e) 0 | None => false end in
+  (* a Send of the replay failed: the replay ends there (nothing is skipped, the writer is not called again - not by
+     the replayer and, the subscription being refused with exactly that error, never by the fan-out) *)
+  let send_failed := fun e => is_ev 38 j e && negb (Nat.eqb (a4 e) 0) in
+  let failed_send_ok :=
+    match find send_failed during with
+    | None => true
+    | Some f =>
+        negb (existsb (fun e => is_ev 38 j e || is_ev 39 j e) (after send_failed (after (is_ev 41 j) evs)))
+        && match find (is_ev 32 j) evs with Some e => Nat.eqb (a2 e) (a4 f) | None => true end
+        && negb (has_ev 34 j evs)
+    end in
   match kind with
   | 0 => true
   | _ => prefixb actual expected && (if finished_ok then Nat.eqb (length actual) (length expected) else true)
          (* no Put falls between the replay and the registration *)
          && negb (has_code 40 during)
+         && failed_send_ok
   end.
 
 (* an event carries the same ID live and replayed: the ID Put returned for it (its own ID if Put
